@@ -567,8 +567,6 @@ Proof.
     unfold decode_plain. cbn. rewrite (plain_byte_array_decode_accepts n bs vs r E). reflexivity.
 Qed.
 
-(* ================================================================== dictionary page *)
-
 Lemma chunks_concat k : forall vs r, Forall (fun v => length v = k) vs ->
   chunks k (length vs) (concat vs ++ r) = vs.
 Proof.
@@ -583,6 +581,178 @@ Proof.
   induction vs as [|v vs IH]; intros HF; [cbn; lia|]. inversion HF as [|? ? Hv HF']; subst.
   cbn [concat length]. rewrite app_length, IH by exact HF'. lia.
 Qed.
+
+(** FIXED_LEN_BYTE_ARRAY *)
+Lemma plain_accepts_flba tlen n bs vals :
+  plain_values E_CARQUET_PHYSICAL_FIXED_LEN_BYTE_ARRAY tlen n bs = Some vals ->
+  decode_plain E_CARQUET_PHYSICAL_FIXED_LEN_BYTE_ARRAY (N.of_nat tlen) bs (N.of_nat n) = Ok vals.
+Proof.
+  intros H. unfold plain_values in H. cbn in H.
+  destruct (Nat.eqb_spec tlen 0) as [K0|K0]; [discriminate|].
+  destruct (spec_flba_dec tlen n bs) as [[vs r]|] eqn:E; [|discriminate]. injection H as <-.
+  destruct (flba_shape _ _ _ _ _ E) as (-> & HF & HL).
+  pose proof (concat_length_fixed tlen vs HF) as Hlen. rewrite HL in Hlen.
+  unfold decode_plain. cbn [Z.eqb E_CARQUET_PHYSICAL_FIXED_LEN_BYTE_ARRAY E_CARQUET_PHYSICAL_BOOLEAN E_CARQUET_PHYSICAL_INT32
+    E_CARQUET_PHYSICAL_INT64 E_CARQUET_PHYSICAL_INT96 E_CARQUET_PHYSICAL_FLOAT E_CARQUET_PHYSICAL_DOUBLE
+    E_CARQUET_PHYSICAL_BYTE_ARRAY Pos.eqb].
+  unfold plain_decode_flba.
+  assert (E0 : (N.of_nat tlen =? 0) = false) by (apply N.eqb_neq; lia). rewrite E0.
+  assert (E1 : (len (concat vs ++ r) / N.of_nat tlen <? N.of_nat n) = false).
+  { apply N.ltb_ge. apply N.div_le_lower_bound; [lia|]. unfold len. rewrite app_length, Hlen. lia. }
+  rewrite E1.
+  replace (N.to_nat (N.of_nat n * N.of_nat tlen)) with (length (concat vs)) by lia.
+  rewrite DeltaBits.take_app. cbn [strip rmap]. rewrite !Nat2N.id. rewrite <- HL.
+  rewrite <- (app_nil_r (concat vs)). rewrite (chunks_concat tlen vs [] HF). reflexivity.
+Qed.
+
+(** INT96: three 32-bit words per value in the decoder, twelve bytes in the format *)
+Lemma le_bytes_le_num4 (v : list N) : DeltaBits.bytes v -> length v = 4%nat -> le_bytes_f 4 (le_num_f v) = v.
+Proof. intros B L. rewrite le_bytes_f_eq, le_num_f_eq. rewrite <- L. apply le_bytes_num. exact B. Qed.
+
+Lemma read_fixed_int96 : forall n bs vs r, DeltaBits.bytes bs -> spec_flba_dec 12 n bs = Some (vs, r) ->
+  exists ws, read_fixed 4 (3 * n) bs = Ok ws /\ map bytes_of_triple (triples ws) = vs.
+Proof.
+  induction n as [|n IH]; intros bs vs r B H; cbn [spec_flba_dec] in H.
+  - injection H as <- <-. exists []. split; reflexivity.
+  - destruct (DeltaBits.take 12 bs) as [[v rest]|] eqn:T; [|discriminate].
+    destruct (spec_flba_dec 12 n rest) as [[vs' r']|] eqn:E; [|discriminate]. injection H as <- <-.
+    destruct (DeltaBits.take_spec _ _ _ _ T) as [-> L]. unfold DeltaBits.bytes in B. apply Forall_app in B. destruct B as [Bv Br].
+    destruct (IH rest vs' r' Br E) as (ws' & Hr & Hm).
+    replace (3 * S n)%nat with (S (S (S (3 * n)))) by lia.
+    do 12 (destruct v as [|? v]; [discriminate L|]). destruct v; [|discriminate L].
+    cbn [read_fixed DeltaBits.take app]. rewrite Hr. eexists. split; [reflexivity|].
+    cbn [triples map bytes_of_triple]. rewrite Hm. f_equal.
+    repeat match goal with H : Forall _ (_ :: _) |- _ => inversion H; clear H; subst end.
+    rewrite !le_bytes_le_num4 by (try reflexivity; repeat constructor; assumption). reflexivity.
+Qed.
+
+Lemma plain_accepts_int96 tlen n bs vals : DeltaBits.bytes bs ->
+  plain_values E_CARQUET_PHYSICAL_INT96 tlen n bs = Some vals ->
+  decode_plain E_CARQUET_PHYSICAL_INT96 (N.of_nat tlen) bs (N.of_nat n) = Ok vals.
+Proof.
+  intros B H. unfold plain_values in H. cbn in H.
+  destruct (spec_flba_dec 12 n bs) as [[vs r]|] eqn:E; [|discriminate]. injection H as <-.
+  destruct (read_fixed_int96 _ _ _ _ B E) as (ws & Hr & Hm).
+  destruct (flba_shape _ _ _ _ _ E) as (Eb & HF & HL).
+  pose proof (concat_length_fixed 12 vs HF) as Hlen. rewrite HL in Hlen.
+  unfold decode_plain. cbn [Z.eqb E_CARQUET_PHYSICAL_FIXED_LEN_BYTE_ARRAY E_CARQUET_PHYSICAL_BOOLEAN E_CARQUET_PHYSICAL_INT32
+    E_CARQUET_PHYSICAL_INT64 E_CARQUET_PHYSICAL_INT96 E_CARQUET_PHYSICAL_FLOAT E_CARQUET_PHYSICAL_DOUBLE
+    E_CARQUET_PHYSICAL_BYTE_ARRAY Pos.eqb].
+  unfold plain_decode_int96.
+  assert (E1 : (len bs / 12 <? N.of_nat n) = false).
+  { apply N.ltb_ge. apply N.div_le_lower_bound; [discriminate|]. subst bs. unfold len. rewrite app_length, Hlen. lia. }
+  rewrite E1, Nat2N.id, Hr. cbn [strip rmap]. rewrite Hm. reflexivity.
+Qed.
+
+(** BOOLEAN: bit i of the stream *)
+Lemma all_some_app {A} : forall (l1 l2 : list (option A)) r, all_some (l1 ++ l2) = Some r ->
+  exists r1 r2, all_some l1 = Some r1 /\ all_some l2 = Some r2 /\ r = r1 ++ r2.
+Proof.
+  induction l1 as [|o l1 IH]; intros l2 r H; cbn [app all_some] in *.
+  - exists [], r. repeat split. exact H.
+  - destruct o as [x|]; [|discriminate]. destruct (all_some (l1 ++ l2)) as [r'|] eqn:E; [|discriminate].
+    injection H as <-. destruct (IH l2 r' E) as (r1 & r2 & -> & H2 & ->). exists (x :: r1), r2. repeat split. exact H2.
+Qed.
+
+Lemma seq_plus_map : forall m s k, List.seq (s + k) m = map (fun i => (i + k)%nat) (List.seq s m).
+Proof. induction m as [|m IH]; intros s k; [reflexivity|]. cbn [List.seq map]. f_equal. apply (IH (S s) k). Qed.
+
+Lemma all_some_nth {A} : forall (r : list A), all_some (map (nth_error r) (List.seq 0 (length r))) = Some r.
+Proof.
+  induction r as [|x r IH]; [reflexivity|]. cbn [length List.seq map nth_error all_some].
+  change 1%nat with (0 + 1)%nat. rewrite seq_plus_map, map_map.
+  rewrite (map_ext (fun i => nth_error (x :: r) (i + 1)) (nth_error r)) by (intros i; rewrite Nat.add_1_r; reflexivity).
+  rewrite IH. reflexivity.
+Qed.
+
+Lemma bit_of_head b t i : (i < 8)%nat -> bit_of (b :: t) i = Some ((b / 2 ^ N.of_nat i) mod 2).
+Proof. intros H. unfold bit_of. rewrite Nat.div_small, Nat.mod_small by exact H. reflexivity. Qed.
+
+Lemma bit_of_tail b t i : bit_of (b :: t) (i + 8) = bit_of t i.
+Proof.
+  unfold bit_of. replace (i + 8)%nat with (i + 1 * 8)%nat by lia.
+  rewrite Nat.div_add, Nat.mod_add by lia. rewrite Nat.add_1_r. reflexivity.
+Qed.
+
+Lemma dec_bools_spec : forall bs n bits,
+  all_some (map (bit_of bs) (List.seq 0 n)) = Some bits -> dec_bools bs n = Ok bits.
+Proof.
+  induction bs as [|b t IH]; intros n bits H.
+  - destruct n as [|n]; [injection H as <-; reflexivity|]. cbn in H. discriminate.
+  - destruct n as [|n]; [injection H as <-; reflexivity|].
+    cbn [dec_bools]. assert (Hm : (0 < S n)%nat) by lia. revert H Hm. generalize (S n) as m. intros m H Hm.
+    set (k := Nat.min 8 m).
+    assert (Hs : List.seq 0 m = List.seq 0 k ++ List.seq (0 + k) (m - k)).
+    { rewrite <- seq_app. f_equal. unfold k. lia. }
+    rewrite Hs, map_app in H. apply all_some_app in H. destruct H as (r1 & r2 & H1 & H2 & ->).
+    assert (E1 : r1 = byte_bits k b).
+    { rewrite (map_ext_in (bit_of (b :: t)) (nth_error (byte_bits k b))) in H1.
+      - rewrite <- (byte_bits_length k b) in H1 at 2. rewrite all_some_nth in H1. injection H1 as <-. reflexivity.
+      - intros i Hi. apply in_seq in Hi. rewrite bit_of_head by (unfold k in Hi; lia).
+        symmetry. apply bit_of_byte_bits. lia. }
+    subst r1. rewrite seq_plus_map, map_map in H2.
+    destruct (Nat.le_gt_cases m 8) as [L|G].
+    + assert (m - k = 0)%nat by (unfold k; lia). rewrite H in *. cbn in H2. injection H2 as <-.
+      destruct t; reflexivity.
+    + assert (Ek : k = 8%nat) by (unfold k; lia). rewrite Ek in *.
+      rewrite (map_ext (fun i => bit_of (b :: t) (i + 8)) (bit_of t)) in H2 by (intros i; apply bit_of_tail).
+      rewrite (IH _ _ H2). reflexivity.
+Qed.
+
+Lemma plain_accepts_boolean tlen n bs vals : len bs < 2 ^ 60 ->
+  plain_values E_CARQUET_PHYSICAL_BOOLEAN tlen n bs = Some vals ->
+  decode_plain E_CARQUET_PHYSICAL_BOOLEAN (N.of_nat tlen) bs (N.of_nat n) = Ok vals.
+Proof.
+  intros L H. unfold plain_values in H. cbn in H. unfold spec_bool_dec in H.
+  destruct (all_some (map (bit_of bs) (List.seq 0 n))) as [bits|] eqn:E; [|discriminate]. injection H as <-.
+  (* the stream holds bit n-1: at least ceil(n/8) bytes *)
+  assert (Hn : (n <= 8 * length bs)%nat).
+  { destruct n as [|n]; [lia|].
+    assert (Hlast : exists x, bit_of bs n = Some x).
+    { rewrite seq_S, map_app in E. apply all_some_app in E. destruct E as (r1 & r2 & _ & E2 & _).
+      cbn [map all_some] in E2. destruct (bit_of bs (0 + n)) as [x|] eqn:Eb; [|discriminate]. exists x. exact Eb. }
+    destruct Hlast as (x & Hx). unfold bit_of in Hx.
+    destruct (nth_error bs (Nat.div n 8)) eqn:En; [|discriminate].
+    assert (Hd : (Nat.div n 8 < length bs)%nat) by (apply nth_error_Some; rewrite En; discriminate).
+    pose proof (Nat.div_mod n 8 ltac:(lia)) as Ed. pose proof (Nat.mod_upper_bound n 8 ltac:(lia)). lia. }
+  unfold decode_plain. cbn [Z.eqb E_CARQUET_PHYSICAL_BOOLEAN]. unfold plain_decode_boolean.
+  assert (Hsz : size_t (N.of_nat n + 7) = N.of_nat n + 7).
+  { apply size_t_small. unfold len in L. change (2 ^ 60) with 1152921504606846976 in L.
+    change (2 ^ 64) with 18446744073709551616. lia. }
+  rewrite Hsz.
+  assert (E1 : (len bs <? (N.of_nat n + 7) / 8) = false).
+  { apply N.ltb_ge. apply N.lt_succ_r. apply N.div_lt_upper_bound; [discriminate|]. unfold len. lia. }
+  rewrite E1, Nat2N.id, (dec_bools_spec _ _ _ E). reflexivity.
+Qed.
+
+Definition known_type (t : Z) : Prop :=
+  t = E_CARQUET_PHYSICAL_BOOLEAN \/ t = E_CARQUET_PHYSICAL_INT32 \/ t = E_CARQUET_PHYSICAL_INT64 \/
+  t = E_CARQUET_PHYSICAL_INT96 \/ t = E_CARQUET_PHYSICAL_FLOAT \/ t = E_CARQUET_PHYSICAL_DOUBLE \/
+  t = E_CARQUET_PHYSICAL_BYTE_ARRAY \/ t = E_CARQUET_PHYSICAL_FIXED_LEN_BYTE_ARRAY.
+
+(** carquet_decode_plain returns the values the PLAIN specification reads, for every type (for a type id the format
+    does not define the specification reads nothing) *)
+Theorem plain_accepts_all_thm : forall t tlen n bs vals,
+  DeltaBits.bytes bs -> len bs < 2 ^ 60 -> plain_values t tlen n bs = Some vals ->
+  decode_plain t (N.of_nat tlen) bs (N.of_nat n) = Ok vals.
+Proof.
+  intros t tlen n bs vals B L H.
+  destruct (Z.eq_dec t E_CARQUET_PHYSICAL_BOOLEAN) as [->|N0]; [apply plain_accepts_boolean; assumption|].
+  destruct (Z.eq_dec t E_CARQUET_PHYSICAL_INT96) as [->|N3]; [apply plain_accepts_int96; assumption|].
+  destruct (Z.eq_dec t E_CARQUET_PHYSICAL_FIXED_LEN_BYTE_ARRAY) as [->|N7]; [apply plain_accepts_flba; assumption|].
+  destruct (Z.eq_dec t E_CARQUET_PHYSICAL_INT32) as [->|N1]; [apply plain_accepts_thm; [left; reflexivity|assumption..]|].
+  destruct (Z.eq_dec t E_CARQUET_PHYSICAL_FLOAT) as [->|N4]; [apply plain_accepts_thm; [right; left; reflexivity|assumption..]|].
+  destruct (Z.eq_dec t E_CARQUET_PHYSICAL_INT64) as [->|N2]; [apply plain_accepts_thm; [right; right; left; reflexivity|assumption..]|].
+  destruct (Z.eq_dec t E_CARQUET_PHYSICAL_DOUBLE) as [->|N5]; [apply plain_accepts_thm; [right; right; right; left; reflexivity|assumption..]|].
+  destruct (Z.eq_dec t E_CARQUET_PHYSICAL_BYTE_ARRAY) as [->|N6]; [apply plain_accepts_thm; [right; right; right; right; reflexivity|assumption..]|].
+  exfalso. unfold plain_values, fixed_width in H.
+  repeat match type of H with context [(t =? ?c)%Z] => destruct (Z.eqb_spec t c); [contradiction|] end.
+  discriminate.
+Qed.
+
+(* ================================================================== dictionary page *)
+
+
 
 Lemma le_val_le_num l : BitpackModel.le_val l = le_num l.
 Proof.
@@ -846,3 +1016,79 @@ Section ChunkAccepts.
         rewrite HLD. cbn [bind]. exact HDP.
   Qed.
 End ChunkAccepts.
+
+(* ================================================================== the theorems without the PLAIN premise *)
+
+Theorem page_decode_accepts_full_thm : forall col dict hdr body reps defs vals,
+  c_maxrep col < 2 ^ 32 -> c_maxdef col < 2 ^ 32 -> DeltaBits.bytes body -> len body < 2 ^ 60 ->
+  (is_dict_encoding (h_encoding hdr) = true -> dictionary_capable (c_type col)) ->
+  PageDenotes col dict hdr body (reps, defs, vals) ->
+  decode_page col (option_map model_dict dict) hdr body = Ok (reps, defs, vals).
+Proof.
+  intros col. apply (page_decode_accepts_thm col). intros n bs vals. apply plain_accepts_all_thm.
+Qed.
+
+Theorem chunk_decode_accepts_full_thm :
+  forall (gz_d zs_d : list N -> N -> res (list N)) (GzipDenotes ZstdDenotes : list N -> list N -> Prop),
+  (forall stored body cap, GzipDenotes stored body -> nlen body <= cap -> gz_d stored cap = Ok body) ->
+  (forall stored body cap, ZstdDenotes stored body -> nlen body <= cap -> zs_d stored cap = Ok body) ->
+  forall col, c_maxrep col < 2 ^ 32 -> c_maxdef col < 2 ^ 32 ->
+  forall has_off pages reps defs vals,
+  ChunkDenotes GzipDenotes ZstdDenotes col pages (reps, defs, vals) ->
+  dict_pages_ok col pages ->
+  (has_off = true -> exists dp rest, pages = dp :: rest /\ h_type (fst dp) = E_CARQUET_PAGE_DICTIONARY) ->
+  (forall dp rest, pages = dp :: rest -> h_type (fst dp) = E_CARQUET_PAGE_DICTIONARY -> dictionary_capable (c_type col)) ->
+  decode_chunk gz_d zs_d col has_off (Z.of_nat (length defs)) pages = Ok (reps, defs, vals).
+Proof.
+  intros gz_d zs_d GD ZD Hg Hz col. apply (chunk_decode_accepts_thm gz_d zs_d GD ZD Hg Hz col).
+  intros n bs vals. apply plain_accepts_all_thm.
+Qed.
+
+(** no external code at all: chunks stored UNCOMPRESSED, SNAPPY or LZ4_RAW (carquet's own decompressors, C10) *)
+Definition NoExternal (stored body : list N) : Prop := False.
+Definition no_external_d (stored : list N) (cap : N) : res (list N) := Err E_DECOMPRESSION.
+
+Theorem chunk_decode_accepts_builtin_thm : forall col, c_maxrep col < 2 ^ 32 -> c_maxdef col < 2 ^ 32 ->
+  forall has_off pages reps defs vals,
+  ChunkDenotes NoExternal NoExternal col pages (reps, defs, vals) ->
+  dict_pages_ok col pages ->
+  (has_off = true -> exists dp rest, pages = dp :: rest /\ h_type (fst dp) = E_CARQUET_PAGE_DICTIONARY) ->
+  (forall dp rest, pages = dp :: rest -> h_type (fst dp) = E_CARQUET_PAGE_DICTIONARY -> dictionary_capable (c_type col)) ->
+  decode_chunk no_external_d no_external_d col has_off (Z.of_nat (length defs)) pages = Ok (reps, defs, vals).
+Proof.
+  apply (chunk_decode_accepts_full_thm no_external_d no_external_d NoExternal NoExternal);
+    intros stored body cap H; destruct H.
+Qed.
+
+(* ------------------------------------------------------------------ the hypotheses are satisfiable *)
+
+(** an OPTIONAL INT32 column: four entries [7, NULL, 8, 9]; definition levels as one bit-packed group *)
+Example page_denotes_example :
+  let col := mkcol E_CARQUET_PHYSICAL_INT32 0 1 0 E_CARQUET_COMPRESSION_UNCOMPRESSED in
+  let hdr := mkhdr E_CARQUET_PAGE_DATA 18 4 E_CARQUET_ENCODING_PLAIN E_CARQUET_ENCODING_RLE E_CARQUET_ENCODING_RLE in
+  let body := [2;0;0;0; 3;13; 7;0;0;0; 8;0;0;0; 9;0;0;0] in
+  PageDenotes col None hdr body ([0;0;0;0], [1;0;1;1], [[7;0;0;0]; [8;0;0;0]; [9;0;0;0]]) /\
+  decode_page col None hdr body = Ok ([0;0;0;0], [1;0;1;1], [[7;0;0;0]; [8;0;0;0]; [9;0;0;0]]).
+Proof.
+  cbv zeta. split; [|vm_compute; reflexivity].
+  unfold PageDenotes. cbn [h_type h_num_values h_rep_enc h_def_enc h_encoding c_maxrep c_maxdef c_type c_tlen].
+  repeat split; try lia; try (right; reflexivity); try (left; reflexivity).
+  exists [2;0;0;0; 3;13; 7;0;0;0; 8;0;0;0; 9;0;0;0], [7;0;0;0; 8;0;0;0; 9;0;0;0]. split; [|split].
+  - cbn. split; reflexivity.
+  - unfold LevelBlock. cbn [N.eqb]. exists [3;13], [1;0;1;1;0;0;0;0]. repeat split; try (vm_compute; reflexivity); try (cbn; lia).
+    exists [RLit [1;0;1;1;0;0;0;0]]. repeat split; try (vm_compute; reflexivity).
+    repeat constructor; cbn; try lia; vm_compute; reflexivity.
+  - left. split; [reflexivity|vm_compute; reflexivity].
+Qed.
+
+(** a dictionary-encoded REQUIRED INT32 chunk of two pages whose metadata does not announce the dictionary page *)
+Example chunk_example :
+  let col := mkcol E_CARQUET_PHYSICAL_INT32 0 0 0 E_CARQUET_COMPRESSION_UNCOMPRESSED in
+  let dp := (mkhdr E_CARQUET_PAGE_DICTIONARY 8 2 E_CARQUET_ENCODING_PLAIN 0 0, [5;0;0;0; 6;0;0;0]) in
+  let p1 := (mkhdr E_CARQUET_PAGE_DATA 3 3 E_CARQUET_ENCODING_RLE_DICTIONARY 0 0, [1; 6; 1]) in       (* RLE run: 3 x index 1 *)
+  let p2 := (mkhdr E_CARQUET_PAGE_DATA 3 2 E_CARQUET_ENCODING_PLAIN_DICTIONARY 0 0, [1; 3; 2]) in     (* bit-packed group 0,1,0.. *)
+  decode_chunk no_external_d no_external_d col false 5 [dp; p1; p2]
+  = Ok ([0;0;0;0;0], [0;0;0;0;0], [[6;0;0;0]; [6;0;0;0]; [6;0;0;0]; [5;0;0;0]; [6;0;0;0]]) /\
+  decode_chunk no_external_d no_external_d col true 5 [dp; p1; p2]
+  = decode_chunk no_external_d no_external_d col false 5 [dp; p1; p2].
+Proof. cbv zeta. split; vm_compute; reflexivity. Qed.
